@@ -141,7 +141,8 @@ def uniform_monotone(ctx):
 
 
 @contract(P, "array.array_to_arcsin/a+(b-a).sin^2(pi.Phi/2)",
-          params=[{"given": True, "bounds": "given"}, {"given": True, "bounds": "default"}, {"given": False, "bounds": "default"}],
+          params=[{"given": True, "bounds": "given"}, {"given": True, "bounds": "default"}, {"given": False, "bounds": "default"},
+                  {"given": True, "bounds": "only-a"}, {"given": True, "bounds": "only-b"}],
           functions=[SRC + "array_to_arcsin", SRC + "_uniform_to_arcsin"])
 def arcsine(ctx, given, bounds):
     xs, mu, var, kw = moments_input(ctx, given)
@@ -150,6 +151,14 @@ def arcsine(ctx, given, bounds):
     if bounds == "given":
         a, b = ctx.real("a"), ctx.real("b")
         kw.update(a=a, b=b)
+    elif bounds in ("only-a", "only-b"):     # each bound has its own documented default
+        a, b = mu - m.sqrt(2.0 * var), mu + m.sqrt(2.0 * var)
+        if bounds == "only-a":
+            a = ctx.real("a")
+            kw.update(a=a)
+        else:
+            b = ctx.real("b")
+            kw.update(b=b)
     else:       # documented default: keep mean and variance
         a, b = mu - m.sqrt(2.0 * var), mu + m.sqrt(2.0 * var)
         # the arcsine law on [a, b] has mean (a+b)/2 and variance (b-a)^2/8
@@ -170,7 +179,8 @@ def uquad_terms(ctx, u, a, b):
 
 
 @contract(P, "array.array_to_uquad/beta+cbrt(3.Phi/alpha-(beta-a)^3)",
-          params=[{"given": True, "bounds": "given"}, {"given": True, "bounds": "default"}, {"given": False, "bounds": "default"}],
+          params=[{"given": True, "bounds": "given"}, {"given": True, "bounds": "default"}, {"given": False, "bounds": "default"},
+                  {"given": True, "bounds": "only-a"}, {"given": True, "bounds": "only-b"}],
           functions=[SRC + "array_to_uquad", SRC + "_uniform_to_uquad"], timeout=40)
 def uquad(ctx, given, bounds):
     """out = beta + cbrt(Y) is stated as (out - beta)^3 = Y (the real cube root is the unique real
@@ -183,6 +193,15 @@ def uquad(ctx, given, bounds):
         a, b = ctx.real("a"), ctx.real("b")
         Hab = ctx.require(ctx.lt(a, b))
         kw.update(a=a, b=b)
+    elif bounds in ("only-a", "only-b"):     # each bound has its own documented default
+        a, b = mu - m.sqrt(5.0 / 3.0 * var), mu + m.sqrt(5.0 / 3.0 * var)
+        if bounds == "only-a":
+            a = ctx.real("a", lo=-6.0, hi=-3.0)
+            kw.update(a=a)
+        else:
+            b = ctx.real("b", lo=3.0, hi=6.0)
+            kw.update(b=b)
+        Hab = ctx.require(ctx.lt(a, b))
     else:
         a, b = mu - m.sqrt(5.0 / 3.0 * var), mu + m.sqrt(5.0 / 3.0 * var)
         # the U-quadratic law on [a, b] has mean (a+b)/2 and variance 3 (b-a)^2/20
